@@ -1330,6 +1330,66 @@ def classify_failure(o, ans):
     return first
 
 
+def softmax_lowering(ck, owners, answers, lines):
+    """Correspondence stream `softmax_lowering`: for every compiled network with an 8-bit SOFTMAX the command streams are decoded by
+    Lean (handler `smlower`), the passes of each SOFTMAX segment are turned into integer rows and compared with the rows of
+    `lower P (graph8 P)` (Model/SoftmaxGraph.lean) for the parameters P of that SOFTMAX (Props/C01SoftmaxLower: equal rows => the
+    stream's program is `runGraph8 P`). A disagreement is a broken correspondence; the failing-input search is the value comparison of
+    that network on a wider sample of inputs."""
+    import time
+
+    t0 = time.time()
+    sel = [i for i, (o, a) in enumerate(zip(owners, answers))
+           if "SOFTMAX" in o["src_ops"] and a.startswith("ok ") and o["dtype"] in ("int8", "uint8")]
+    reqs = ["smlower" + lines[i][len("semcheck"):] for i in sel]
+    res = run_lean(reqs)
+    searched = 0
+    for i, ans2 in zip(sel, res):
+        o, line = owners[i], lines[i]
+        where = f"(network {o['idx']} {o['profile']} {o['src_ops']} {o['opts']})"
+        rp = {"profile": o["profile"], "seed": o["seed"], "index": o["idx"], "opts": o["opts"], "network": o["desc"],
+              "verdict": answers[i][:2000], "request": line, "lowering": ans2[:2000], "correspondence": "softmax_lowering"}
+        m = re.match(r"ok softmax=(\d+) segments=(\d+) passes=(\d+) stripes=(\d+) rows=(\d+) bad=(\d+) first=(\S+) verdict=(\w+)", ans2)
+        if not m:
+            raise common.InfraError(f"smlower: unexpected answer {ans2[:300]} {where}")
+        nsm, nseg, npass, nstripes, nrows, bad = (int(m.group(k)) for k in range(1, 7))
+        if nsm == 0:
+            continue            # the SOFTMAX of the network is not an 8-bit one
+        on_cpu = sum(1 for kd in (o.get("out_kinds") or []) if kd == "SOFTMAX")
+        ck.count("softmax_lowering_networks")
+        ck.count("softmax_lowering_segments", nseg)
+        ck.count("softmax_lowering_passes", npass)
+        ck.count("softmax_lowering_block_operations", nstripes)
+        ck.count("softmax_lowering_rows_compared", nrows)
+        ck.count("softmax_lowering_softmax_left_to_cpu", on_cpu)
+        if nseg > 0:
+            ck.count("softmax_lowering_acc_" + o["opts"][o["opts"].index("--accelerator-config") + 1])
+            ck.count("softmax_lowering_dtype_" + o["dtype"])
+            if nstripes > npass:
+                ck.count("softmax_lowering_networks_with_striped_passes")
+        if bad == 0 and nseg + on_cpu >= nsm:
+            continue
+        # broken correspondence; failing-input search: the value comparison of this network on more input sets
+        import c01_lib
+
+        r2 = random.Random(o["idx"] * 7919 + 31)
+        more = c01_lib.inputs_from_specs(r2, [tuple(sp) for sp in o["input_specs"]], 48, first=6)
+        searched += 1
+        if searched <= 12:      # the wider sample is run for the first few disagreeing networks only (bounded time)
+            ans3 = common.run_model([c01_lib.with_inputs(line, more)])[0]
+            rp.update(request=c01_lib.with_inputs(line, more), verdict=ans3[:2000])
+        else:
+            ans3 = answers[i]
+        what = (f"rows differ: first={m.group(7)} (segment/pass/column/model/stream; columns: kind, a tag, a, b tag, b, rounding, "
+                f"OFM_SCALE multiplier, shift, OPA zero point, OPB zero point, 32-bit operand, 32-bit OFM, OFM zero point, LUT, index low, "
+                f"index bits, ACTIVATION_MIN, ACTIVATION_MAX)" if bad else
+                f"{nsm} 8-bit SOFTMAX in the source, {on_cpu} left to the CPU, but only {nseg} SOFTMAX segments recognised in the streams")
+        ck.violation(f"SOFTMAX lowering: the decoded command stream is not the lowered program of Model/SoftmaxGraph.lean "
+                     f"(lower P (graph8 P)): {what}; value comparison on a wider input sample: {ans3[:200]} {where}",
+                     rp, found_input=ans3.endswith("verdict=fail"))
+    ck.count("seconds_softmax_lowering", round(time.time() - t0))
+
+
 def replay(ck, path):
     rp = json.load(open(path))["replay"]
     if "stream" in rp:
@@ -1345,13 +1405,19 @@ def replay(ck, path):
         sys.exit(1)
     ans = common.run_model([rp["request"]])[0]
     print("replayed verdict:", ans[:1000])
-    sys.exit(0 if ans.endswith("verdict=pass") else 1)
+    low_ok = True
+    if rp.get("correspondence") == "softmax_lowering":
+        low = common.run_model(["smlower" + rp["request"][len("semcheck"):]])[0]
+        print("replayed SOFTMAX lowering comparison:", low[:1000])
+        low_ok = low.endswith("verdict=pass")
+    sys.exit(0 if ans.endswith("verdict=pass") and low_ok else 1)
 
 
 def main():
     ck = Check("C01", "translation_validation")
     ck.lean_stage(["VelaVerif.Props.C01", "VelaVerif.Props.C01Rewrites", "VelaVerif.Props.C01Rewrites2", "VelaVerif.Props.C01Wide",
-                   "VelaVerif.Props.C01Packing", "VelaVerif.Props.C01Slice", "VelaVerif.Props.C01StridedSlice", "VelaVerif.Props.C01Softmax"])
+                   "VelaVerif.Props.C01Packing", "VelaVerif.Props.C01Slice", "VelaVerif.Props.C01StridedSlice", "VelaVerif.Props.C01Softmax",
+                   "VelaVerif.Props.C01SoftmaxLower"])
     if ck.replay_arg:
         replay(ck, ck.replay_arg)
     import pipeline
@@ -1493,6 +1559,7 @@ def main():
                              f"difference, PreprocessSoftmaxScaling in double): {m.group(0)} (table/entry/reference/stream); "
                              f"wider input sample: {ans2[:200]} (network {o['idx']} {o['profile']} {o['src_ops']} {o['opts']})",
                              rp2, found_input=ans2.endswith("verdict=fail"))
+    softmax_lowering(ck, owners, answers, lines)
     for o, ans in list(zip(owners, answers))[:4]:
         ck.sample({"network": o["desc"], "opts": o["opts"], "features": o.get("features"), "verdict": ans[:300]})
     ck.finish({
